@@ -8,6 +8,8 @@ import (
 	"reflect"
 	"sort"
 	"strings"
+	"unicode"
+	"unicode/utf8"
 
 	"github.com/cosmos72/gomacro/imports"
 )
@@ -143,6 +145,8 @@ func (m *c36Model) apply(o c36Op) {
 		sc[o.Name] = &c36Ent{"var", t}
 	case "import":
 		sc[o.Name] = &c36Ent{"import", &c36T{K: "pkg", Path: o.Arg}}
+	case "utype":
+		sc[o.Name] = &c36Ent{"type", &c36T{K: "struct", Name: o.Name, Fields: []c36F{{"größe", c36Int, false}, {"Größe", c36String, false}, {"ab", c36Int, false}, {"a1", c36Int, false}}, Methods: []string{"öl", "Ab2"}}}
 	}
 }
 
@@ -235,9 +239,14 @@ type c36Want struct {
 	imported bool
 	single   bool
 	viaPtrIn bool // a middle word of the chain had pointer type
+
+	class func(name string, missing bool) string // optional: labels a mismatching name (families with their own oracle)
 }
 
 func (w *c36Want) classifyExtra(name string) string {
+	if w.class != nil {
+		return w.class(name, false)
+	}
 	switch {
 	case w.single && name == "template":
 		return "template-is-no-keyword-with-cti-generics"
@@ -250,6 +259,9 @@ func (w *c36Want) classifyExtra(name string) string {
 }
 
 func (w *c36Want) classifyMissing(name string) string {
+	if w.class != nil {
+		return w.class(name, true)
+	}
 	if w.viaPtrIn {
 		return "chain-through-pointer-valued-word"
 	}
@@ -259,20 +271,33 @@ func (w *c36Want) classifyMissing(name string) string {
 	return "other"
 }
 
-func c36IsIdentByte(b byte) bool {
-	return b == '_' || b >= 'a' && b <= 'z' || b >= 'A' && b <= 'Z' || b >= '0' && b <= '9'
-}
-
+// c36TrailingIdent returns the longest suffix of s that is a Go identifier (Go spec: letter { letter | unicode_digit },
+// letter = '_' or Unicode category L, unicode_digit = category Nd), scanning whole runes backwards.
 func c36TrailingIdent(s string) string {
 	i := len(s)
-	for i > 0 && c36IsIdentByte(s[i-1]) {
-		i--
+	for i > 0 {
+		r, n := utf8.DecodeLastRuneInString(s[:i])
+		if r == utf8.RuneError && n <= 1 {
+			break
+		}
+		if r != '_' && !unicode.IsLetter(r) && !unicode.IsDigit(r) {
+			break
+		}
+		i -= n
 	}
-	for i < len(s) && s[i] >= '0' && s[i] <= '9' {
-		i++
+	// an identifier does not start with a digit
+	for i < len(s) {
+		r, n := utf8.DecodeRuneInString(s[i:])
+		if !unicode.IsDigit(r) {
+			break
+		}
+		i += n
 	}
 	return s[i:]
 }
+
+// white space may surround the dots of a selector chain
+func c36TrimSpaceRight(s string) string { return strings.TrimRight(s, " \t") }
 
 type c36Member struct {
 	depth  int
@@ -385,16 +410,16 @@ type c36Node struct {
 func (m *c36Model) complete(head string, fromInner bool) *c36Want {
 	w := c36TrailingIdent(head)
 	words := []string{w}
-	rest := head[:len(head)-len(w)]
+	rest := c36TrimSpaceRight(head[:len(head)-len(w)])
 	for strings.HasSuffix(rest, ".") {
-		r2 := rest[:len(rest)-1]
+		r2 := c36TrimSpaceRight(rest[:len(rest)-1])
 		id := c36TrailingIdent(r2)
 		if id == "" {
 			// a dot that does not follow an identifier: nothing to complete on
 			return &c36Want{Qual: "dot-without-qualifier"}
 		}
 		words = append([]string{id}, words...)
-		rest = r2[:len(r2)-len(id)]
+		rest = c36TrimSpaceRight(r2[:len(r2)-len(id)])
 	}
 	want := &c36Want{Head: head[:len(head)-len(w)], leak: map[string]bool{}, viaPtr: map[string]bool{}}
 	var cands []string
@@ -502,6 +527,8 @@ func (n c36Node) label() string {
 		emb := "embeds-E"
 		if n.t.Fields[0].Emb && n.t.Fields[0].T.K == "ptr" {
 			emb = "embeds-*E"
+		} else if !n.t.Fields[0].Emb {
+			emb = "plain"
 		}
 		if n.t.Name == "E" || n.t.Name == "F" || n.t.Name == "G" {
 			emb = n.t.Name
